@@ -166,6 +166,9 @@ def _stub_error_cls():
     return GenStubError
 
 
+_ABSENT = object()
+
+
 def gen_inputs(crown, extra_policy, rnd, budget=400):
     """concrete inputs: every child present / absent, leaves good / bad, nodes of the right / a wrong kind, extras"""
     def leaf_values():
@@ -204,10 +207,26 @@ def gen_inputs(crown, extra_policy, rnd, budget=400):
                     out.append(("v", base[:-1]))
             out += [("v", wrong) for wrong in ({"a": 1}, "ab", 5, None, {i: "good" for i in range(n)})]
         return out
+    def presence(node, cap=12):
+        """systematic part: every subset of present keys at every mapping node (all leaves good), containers present or absent"""
+        if isinstance(node, Leaf):
+            return ["good"]
+        if isinstance(node, DictNode):
+            keys = list(node.children)
+            opts = [[_ABSENT] + presence(node.children[k], cap=4) for k in keys]
+            out = []
+            for combo in itertools.product(*opts):
+                out.append({k: v for k, v in zip(keys, combo) if v is not _ABSENT})
+                if len(out) >= 4 ** min(len(keys), 4) * cap:
+                    break
+            return out
+        return [[(presence(node.children[i], cap=2)[-1] if i in node.children else "gap") for i in range(node.size)]]
+    systematic = presence(crown)[:max(budget // 2, 100)]
     allv = [v for _, v in node_variants(crown)]
-    if len(allv) > budget:
-        allv = rnd.sample(allv, budget)
-    return allv
+    room = max(budget - len(systematic), budget // 2)
+    if len(allv) > room:
+        allv = rnd.sample(allv, room)
+    return systematic + allv
 
 
 def native_eval(case, data):
@@ -382,9 +401,14 @@ def native_check(case, cap, limit=200, seed=0):
                     want_nodes = {d.split("@", 1)[1] for d in definite if d.startswith("missing-at@")}
                     got_n = sum(1 for leaf, _ in leaves if isinstance(leaf, _NRF))
                     # a missing key that leads to an inner container may be reported at its parent too (not fixed by the
-                    # documentation): only too FEW reports are a mismatch
+                    # documentation): in TOTAL only too few reports are a mismatch ...
                     if got_n < len(want_nodes):
                         mm("all-missing-reported", f"{len(want_nodes)} mappings lack required keys, {got_n} NoRequiredFieldsLoadError reported")
+                    # ... but the report ABOUT one mapping (identified by its trail) appears exactly once
+                    for node_path in want_nodes:
+                        hits = sum(1 for leaf, trail in leaves if isinstance(leaf, _NRF) and repr(tuple(trail)) == node_path)
+                        if hits != 1:
+                            mm("all-missing-reported", f"the mapping at {node_path} lacks required keys: reported {hits} times")
             if len(mismatches) > 12:
                 break
     finally:
